@@ -14,7 +14,7 @@ mcSetup == << [op |-> "CreateTopic", name |-> "t1"], [op |-> "CreateSub", c |-> 
 mcMsgKinds == { [key |-> "", attrs |-> <<>>] }
 mcPrefixPairs == {}
 mcBatchMax == 1
-mcTickDs == {2}
+mcTickDs == {1}
 mcPullMaxes == {2}
 mcJobAges == {0}
 mcJobMaxes == {1}
